@@ -62,7 +62,20 @@ def items(draw):
             'other_flags': draw(strat.flag_sets(strat.OTHER_FLAGS))}
 
 
+def stack_cases():
+    ''' Whole nodes (vlib/stack_world.py): n2 forwards between n1 and n3 and knows the way to n1 only from the route its
+    TCPCL adaptor adds when n1 has connected ("reverse route", which holds no address to connect to).  Sessions are cut
+    in between, so forwards fail and succeed at different times; the reports travel to the originators. '''
+    send = st.tuples(st.just('send'), st.sampled_from([1, 3, 3]), st.integers(0, 15), st.booleans()).map(list)
+    cut = st.tuples(st.just('cut'), st.sampled_from([1, 2, 3])).map(list)
+    return st.fixed_dictionaries({'kind': st.just('stack'), 'ops': st.lists(st.one_of(send, send, cut), min_size=2, max_size=8)})
+
+
 def strategy(tier):
+    return st.one_of(single_cases(), single_cases(), single_cases(), stack_cases())
+
+
+def single_cases():
     # rpt_mtu: MTU of the routes that carry the status reports themselves (None: unlimited; 90/110: a report of about
     # 120 octets leaves as fragments)
     return st.fixed_dictionaries({'history': st.lists(items(), min_size=1, max_size=3),
@@ -76,6 +89,7 @@ def enumerate_cases(tier):
 
 
 def pinned_cases():
+    yield 'stack-reverse-route', {'kind': 'stack', 'ops': [['send', 1, 15, True], ['cut', 1], ['send', 3, 15, True], ['send', 1, 15, True]]}
     yield 'fragmented-report', {'rpt_mtu': 100, 'history': [{'outcome': 'forward', 'mask': 31, 'rpt': 1, 'src': ['dtn', '//src/'],
                                                              'ts': [1000, 1], 'pcrc': 1, 'ycrc': 2, 'plen': 20, 'ext': [], 'other_flags': 0}]}
     yield 'forward-frag-all-flags', {'history': [{'outcome': 'forward-frag', 'mask': 31, 'rpt': 1, 'src': ['dtn', '//src/'],
@@ -128,7 +142,101 @@ def build(item, index):
     return {'primary': pri, 'blocks': blocks}
 
 
+def execute_stack(case):
+    from vlib import stack_world as sw, bpconv, ref9171 as r, tcpcl_world as tw
+    import dbus
+    out = Outcome()
+    world = sw.StackWorld([
+        dict(routes=[('^dtn://n[23]/', 2, 'tcpcl')], rx_routes=[('^dtn://n1/', 'deliver')]),
+        dict(routes=[('^dtn://n3/', 3, 'tcpcl')], rx_routes=[('^dtn://n2/', 'deliver'), ('^dtn://n[13]/', 'forward')]),
+        dict(routes=[('^dtn://n[12]/', 2, 'tcpcl')], rx_routes=[('^dtn://n3/', 'deliver')]),
+    ])
+    try:
+        seq = 0
+        subjects = {}
+        for op in case['ops']:
+            if op[0] == 'send':
+                _o, origin, mask, pump = op
+                dest = 3 if origin == 1 else 1
+                seq += 1
+                flags = 0
+                for bit, flag in enumerate((r.FLAG_RPT_RECEPTION, r.FLAG_RPT_FORWARD, r.FLAG_RPT_DELIVERY, r.FLAG_RPT_DELETION)):
+                    if mask >> bit & 1:
+                        flags |= flag
+                pri = dict(version=7, flags=flags, crc_type=1, dest=['dtn', '//n%d/svc' % dest], src=['dtn', '//n%d/app' % origin],
+                           rpt=['dtn', '//n%d/' % origin], ts=[1000, seq], lifetime=3600000, frag=None)
+                bundle = {'primary': pri, 'blocks': [dict(type=1, num=1, flags=0, crc_type=2, data=(b'rep-%d' % seq).hex())]}
+                world.hosts[origin].originate(bpconv.to_repo(bundle))
+                subjects[(('dtn', '//n%d/app' % origin), 1000, seq)] = flags
+                if pump:
+                    world.pump()
+            elif op[0] == 'cut':
+                host = world.hosts[op[1]]
+                for hdl in host.contacts():
+                    if hdl.get_session_state() == 'established':
+                        tw.dbuscall(host.tctx, hdl, 'terminate', dbus.Byte(0))
+                world.pump()
+        world.pump()
+        world.advance(1000)
+        carried = {}        # (subject identity) -> set of nodes that transmitted it onward
+        reports = []
+        for xfer in world.transfers():
+            if not xfer['complete']:
+                continue
+            try:
+                dec = r.decode(xfer['data'])
+            except Exception as err:
+                out.fail('wire-undecodable', 'a transfer does not decode as a bundle: %s' % err)
+                continue
+            pri = dec['primary']
+            if pri['flags'] & r.FLAG_ADMIN:
+                try:
+                    body = r.parse_status_report(r.payload_block(dec)['data'])
+                except r.RefError:
+                    continue
+                reports.append((r.eid_text(pri['src']), xfer['src'], body, pri))
+            else:
+                carried.setdefault((tuple(pri['src']), pri['ts'][0], pri['ts'][1]), set()).add(xfer['src'])
+        seen_reports = set()
+        for reporter, _hop, body, pri in reports:
+            key = (reporter, tuple(body['src']), tuple(body['ts']), tuple(flag for flag, _t in body['status']))
+            if key in seen_reports:
+                continue
+            seen_reports.add(key)
+            out.count('stack-reports')
+            ident = (tuple(body['src']), body['ts'][0], body['ts'][1])
+            if ident not in subjects:
+                out.fail('report-subject', 'a status report names a subject %s that nobody sent' % (ident,))
+                continue
+            if pri['flags'] & (r.FLAG_RPT_RECEPTION | r.FLAG_RPT_FORWARD | r.FLAG_RPT_DELIVERY | r.FLAG_RPT_DELETION):
+                out.fail('report-requests-reports', 'a status report requests status reports itself')
+            node_index = int(reporter[len('dtn://n')]) if reporter.startswith('dtn://n') else None
+            names = ['received', 'forwarded', 'delivered', 'deleted']
+            asserted = set(n for n, (flag, _t) in zip(names, body['status']) if flag)
+            did_forward = node_index in carried.get(ident, set())
+            if 'deleted' in asserted and did_forward:
+                out.fail('forwarded-reported-deleted', 'n%s reported bundle %s as deleted (reason %d) and transmitted it to its next hop all '
+                         'the same (ops %s)' % (node_index, ident, body['reason'], case['ops']))
+            if 'forwarded' in asserted and not did_forward:
+                out.fail('report-asserts-did-not-occur:forwarded', 'n%s reported bundle %s as forwarded, it never left that node (ops %s)'
+                         % (node_index, ident, case['ops']))
+            requested = set(n for n, bit in zip(names, (r.FLAG_RPT_RECEPTION, r.FLAG_RPT_FORWARD, r.FLAG_RPT_DELIVERY, r.FLAG_RPT_DELETION))
+                            if subjects[ident] & bit)
+            if asserted - requested:
+                out.fail('report-asserts-not-requested:%s' % ','.join(sorted(asserted - requested)),
+                         'n%s asserts %s for bundle %s which requested %s' % (node_index, sorted(asserted - requested), ident, sorted(requested)))
+        for esc in world.escapes():
+            out.count('stack-escape:%s@%s' % (esc.exc_type, esc.frame))
+        out.label('stack')
+        out.nontrivial = bool(reports) and any(op[0] == 'cut' for op in case['ops'])
+    finally:
+        world.close()
+    return out
+
+
 def execute(case):
+    if case.get('kind') == 'stack':
+        return execute_stack(case)
     from vlib import bp_world as bw, ref9171 as r
     out = Outcome()
     bw.reset()
